@@ -323,9 +323,32 @@ func normalise(res *abci.ExecTxResult) *abci.ExecTxResult {
 				}
 			}
 		}
+		if e.Type == evmtypes.EventTypeEthereumTx {
+			// index among the Ethereum transactions admitted so far in the block: positional as well
+			for j := range ne.Attributes {
+				if ne.Attributes[j].Key == evmtypes.AttributeKeyTxIndex {
+					ne.Attributes[j].Value = "*"
+				}
+			}
+		}
 		out.Events[i] = ne
 	}
 	return &out
+}
+
+// feeDiffers tells whether the poison and its benign twin paid different amounts to the fee collector.
+func feeDiffers(p, b *abci.ExecTxResult) bool {
+	key := func(r *abci.ExecTxResult) string {
+		switch {
+		case vh.HasEvent(r, evmtypes.EventTypeEthereumTx): // admitted Ethereum tx: charged gas used x price (same price in both)
+			return fmt.Sprintf("eth:%d", r.GasUsed)
+		case vh.HasEvent(r, "tx"): // admitted Cosmos tx: charged the declared fee
+			fee, _ := vh.EventAttr(r, "tx", "fee")
+			return "cosmos:" + fee
+		}
+		return "none"
+	}
+	return key(p) != key(b)
 }
 
 func blankReceipt(bz []byte) []byte {
@@ -439,7 +462,7 @@ func childIsolation(rec *rec, seed uint64, batch, start, count int) {
 	for i := start; i < count; i++ {
 		caseIdx := batch*1000 + i
 		r := derive(seed, "iso-case", caseIdx)
-		class := poisonClasses[caseIdx%len(poisonClasses)]
+		class := poisonClasses[(batch*count+i)%len(poisonClasses)] // consecutive across batches: every class is reached
 		if class == "precompile-executor-panic" && len(panicInputs) == 0 {
 			class = "precompile-malformed-input"
 		}
@@ -569,7 +592,18 @@ func isoCase(rec *rec, trk *tracker, r *vh.RNG, i, caseIdx int, class string, x,
 		}
 		if f := resultDiff(rx[j], ry[j]); f != "" {
 			// positional receipt fields only?
-			if f2 := resultDiff(normalise(rx[j]), normalise(ry[j])); f2 == "" {
+			nx, ny := normalise(rx[j]), normalise(ry[j])
+			if !vh.HasEvent(rx[j], evmtypes.EventTypeEthereumTx) && !vh.HasEvent(ry[j], evmtypes.EventTypeEthereumTx) && feeDiffers(pres, bres) {
+				// Cosmos-lane gas is KV gas: it depends on the byte length of every value read or written,
+				// including the fee collector's balance string, which legitimately differs between B and B'
+				// when poison and benign were charged different fees (a failing Ethereum tx is charged more
+				// gas than its benign twin; an undecodable one nothing). GasUsed of such a tx is not judged.
+				if nx.GasUsed != ny.GasUsed {
+					rec.Count("isolation_cosmos_gas_used_not_judged_fee_collector_balance_differs", 1)
+				}
+				nx.GasUsed, ny.GasUsed = 0, 0
+			}
+			if f2 := resultDiff(nx, ny); f2 == "" {
 				positionalOnly++
 				continue
 			} else {
